@@ -484,10 +484,6 @@ func (obj *Flavor) LoadForm() slip.Object {
 		}
 	}
 	sort.Strings(keys)
-	var (
-		gets slip.List
-		sets slip.List
-	)
 	ivs := make(slip.List, len(keys))
 	for i, k := range keys {
 		ksym := slip.Symbol(k)
@@ -496,11 +492,27 @@ func (obj *Flavor) LoadForm() slip.Object {
 		} else {
 			ivs[i] = ksym
 		}
-		if _, has := obj.methods[":"+k]; has {
-			gets = append(gets, ksym)
+	}
+	// The accessor options of this flavor can name inherited variables as
+	// well, and an option without a list stands for all variables, the
+	// inherited ones included.
+	all := make([]string, 0, len(obj.defaultVars))
+	for k := range obj.defaultVars {
+		if k != "self" {
+			all = append(all, k)
 		}
-		if _, has := obj.methods[":set-"+k]; has {
-			sets = append(sets, ksym)
+	}
+	sort.Strings(all)
+	var (
+		gets slip.List
+		sets slip.List
+	)
+	for _, k := range all {
+		if obj.ownAccessor(":" + k) {
+			gets = append(gets, slip.Symbol(k))
+		}
+		if obj.ownAccessor(":set-" + k) {
+			sets = append(sets, slip.Symbol(k))
 		}
 	}
 	var inh slip.List
@@ -517,7 +529,7 @@ func (obj *Flavor) LoadForm() slip.Object {
 		inh,
 	}
 	if 0 < len(obj.initable) {
-		if len(obj.initable) == len(keys) {
+		if obj.initableAll(all) {
 			df = append(df, slip.Symbol(":inittable-instance-variables"))
 		} else {
 			var iiv slip.List
@@ -536,20 +548,20 @@ func (obj *Flavor) LoadForm() slip.Object {
 		}
 	}
 	if 0 < len(gets) {
-		if len(gets) == len(keys) {
+		if len(gets) == len(all) {
 			df = append(df, slip.Symbol(":gettable-instance-variables"))
 		} else {
 			df = append(df, append(slip.List{slip.Symbol(":gettable-instance-variables")}, gets...))
 		}
 	}
 	if 0 < len(sets) {
-		if len(sets) == len(keys) {
+		if len(sets) == len(all) {
 			df = append(df, slip.Symbol(":settable-instance-variables"))
 		} else {
 			df = append(df, append(slip.List{slip.Symbol(":settable-instance-variables")}, sets...))
 		}
 	}
-	if 0 < len(obj.keywords) {
+	if 0 < len(obj.keywords) || obj.allowOtherKeys || obj.inheritsAllowOtherKeys() {
 		kws := make([]string, 0, len(obj.keywords))
 		for k := range obj.keywords {
 			kws = append(kws, k)
@@ -559,6 +571,9 @@ func (obj *Flavor) LoadForm() slip.Object {
 		ko = append(ko, slip.Symbol(":default-init-plist"))
 		if obj.allowOtherKeys {
 			ko = append(ko, slip.List{slip.Symbol(":allow-other-keys"), slip.True})
+		} else if obj.inheritsAllowOtherKeys() {
+			// Turned off by this flavor although a component allows them.
+			ko = append(ko, slip.List{slip.Symbol(":allow-other-keys"), nil})
 		}
 		for _, k := range kws {
 			ko = append(ko, slip.List{slip.Symbol(k), obj.keywords[k]})
@@ -587,6 +602,45 @@ func (obj *Flavor) LoadForm() slip.Object {
 		df = append(df, slip.List{slip.Symbol(":documentation"), slip.String(obj.docs)})
 	}
 	return df
+}
+
+// ownAccessor returns true if the named method is a variable getter or
+// setter defined by an option of the flavor itself and not by a component.
+func (obj *Flavor) ownAccessor(name string) bool {
+	if m := obj.methods[name]; m != nil {
+		for _, c := range m.Combinations {
+			if c.From == slip.Class(obj) {
+				switch c.Primary.(type) {
+				case getter, setter:
+					return true
+				}
+			}
+		}
+	}
+	return false
+}
+
+// initableAll returns true if all the variables, the inherited ones
+// included, and nothing else were declared initable by the flavor.
+func (obj *Flavor) initableAll(all []string) bool {
+	if len(obj.initable) != len(all) {
+		return false
+	}
+	for _, k := range all {
+		if !obj.initable[":"+k] {
+			return false
+		}
+	}
+	return true
+}
+
+func (obj *Flavor) inheritsAllowOtherKeys() bool {
+	for _, f := range obj.inherit {
+		if f.allowOtherKeys {
+			return true
+		}
+	}
+	return false
 }
 
 func (obj *Flavor) inheritedVar(k string, v slip.Object) bool {
